@@ -103,6 +103,14 @@ class C01(PairCheck):
     term_p = 0.25
     close_p = 0.05
 
+    def models(self, tier):
+        tm = tcpcl_models
+        return PairCheck.models(self, tier) + [
+            tm.session_model('MC_dev_close_success', '{0,3}', tm.A1, tm.MRU, tm.INI, tm.BOTHQ, '{"A"}', tm.BOTH,
+                             dev='{"close_reports_zero_length_success"}', expect='violation',
+                             note='close() by either user at any moment: reporting a zero-length transfer that still '
+                                  'awaits its ACK as success must violate SuccessOnlyAfterReceiverHoldsBundle')]
+
     def executions(self, tier, seed):
         traces, metas = PairCheck.executions(self, tier, seed)
         # the same with adaptive segment sizing switched on and transfers pipelined ahead of their ACKs
